@@ -607,6 +607,75 @@ def gen_rfc_single_case(rng, ctx):
     return 'spfr ' + spf_line('d0.example.com', rfc_session(rng, hit, rhost), zone)[4:]
 
 
+# ---------------------------------------------------------------------------------------------
+# unsanitised TXT: the zone entry R:-:1 makes the stub hand TXT bytes on as they are, so that
+# record_bad_token() and the explanation sanitiser see 8-bit bytes, control characters, ( ) and \
+
+def gen_raw_case(rng, ctx):
+    hit = rng.choice(V4[:2] + V6[:2])
+    s, mf, helo = gen_session(rng, hit)
+    pool = list(range(1, 32)) + [40, 41, 92, 37, 127] + list(range(128, 256)) + [0]
+    def junk(n):
+        return bytes(rng.choice(pool) if rng.random() < 0.5 else rng.randrange(33, 127) for _ in range(n))
+    good = [b'ip4:203.0.113.7', b'?exists:void.example.com', b'a:d1.example.com', b'ip6:2001:db8:ffff::1', b'foo=bar', b'include:d1.example.com']
+    terms = [rng.choice(good) for _ in range(rng.choice([0, 0, 1, 2]))]
+    k = rng.random()
+    if k < 0.55:
+        bad = junk(rng.randrange(1, 12))
+    elif k < 0.75:
+        bad = rng.choice([b'-', b'~', b'+', b'?', b'']) + rng.choice([b'a', b'mx', b'x', b'foo', b'all']) + junk(rng.randrange(1, 8))
+    elif k < 0.9:
+        bad = rng.choice([b'foo=', b'a:', b'exists:', b'redirect=', b'exp=', b'include:']) + junk(rng.randrange(1, 8))
+    else:
+        bad = junk(rng.randrange(1, 4)) + b'=' + junk(rng.randrange(0, 4))
+    terms.insert(rng.randrange(len(terms) + 1), bad)
+    rec = b'v=spf1 ' + b' '.join(terms) + rng.choice([b'', b' -all', b' -all exp=explain.example.com'])
+    zone = ['R:-:1', zT('d0.example.com', [rec]), zT('d1.example.com', [rng.choice([b'v=spf1 -all', b'v=spf1 -all exp=exp2.example.com', b'v=spf1 ?all'])])]
+    for n in ('explain.example.com', 'exp2.example.com'):
+        zone.append(zT(n, [rng.choice([b'plain ', b'%{s} ', b'(%{d}) \\ ', b'']) + junk(rng.randrange(0, 10))]))
+    ctx.count('zone:raw-txt')
+    return spf_line('d0.example.com', s, zone)
+
+
+# ---------------------------------------------------------------------------------------------
+# the DNS term limit from both sides: an include (or redirect) that is the 9th, 10th or 11th
+# DNS-querying term and really evaluates to fail / softfail / neutral / pass, with a matching
+# term behind it
+
+def gen_limit_edge_case(rng, ctx):
+    hit = rng.choice(V4 + V6)
+    is6 = ':' in hit
+    lit = ('ip6:' if is6 else 'ip4:') + hit
+    k = rng.choice([7, 8, 8, 9, 9, 9, 10, 10])          # DNS terms in front of the include/redirect
+    inner = rng.choice([0, 0, 0, 1, 2])                  # DNS terms inside the included record
+    k_out = max(0, k - inner)
+    front = [rng.choice(['a:t%d.example.com', 'mx:t%d.example.com', 'exists:t%d.example.com', '?a:t%d.example.com/24']) % i for i in range(k_out)]
+    inner_terms = ['a:u%d.example.com' % i for i in range(inner)]
+    how = rng.choice(['include', 'include', 'include', 'redirect'])
+    strict_end = rng.choice(['-all', '-all', '~all', '?all', '+all', '', lit + ' -all', '-all exp=explain.example.com'])
+    zone = [zT('strict.example.com', [' '.join(['v=spf1'] + inner_terms + ([strict_end] if strict_end else []))])]
+    if how == 'include':
+        q = rng.choice(['', '', '-', '~', '?'])
+        behind = rng.choice([lit, lit, 'all', '+all', '?all', 'a:hit.example.com', 'exists:hit.example.com', 'mx:hit.example.com', 'include:pass.example.com', ''])
+        tail = rng.choice(['-all', '-all', '~all', ''])
+        rec = ' '.join(x for x in ['v=spf1'] + front + [q + 'include:strict.example.com', behind, tail] if x)
+    else:
+        behind = rng.choice(['', '', 'ip4:203.0.113.7', 'foo=bar'])
+        rec = ' '.join(x for x in ['v=spf1'] + front + [behind, 'redirect=strict.example.com'] if x)
+        if rng.random() < 0.5:
+            rec = ' '.join(x for x in ['v=spf1', 'redirect=strict.example.com'] + front + [behind] if x)
+    zone.append(zT('c0.example.com', [rec]))
+    zone.append(zT('pass.example.com', ['v=spf1 +all']))
+    if is6:
+        zone.append(zQ('hit.example.com', [hit]))
+    else:
+        zone.append(zA('hit.example.com', [hit])); zone.append(zQ('hit.example.com', [hit]))
+    zone.append(zM('hit.example.com', [(10, 'hit.example.com')]))
+    gen_exp_records(rng, zone)
+    ctx.count('zone:limit-edge-%s-%d' % (how, k + 1))
+    return 'spfr ' + spf_line('c0.example.com', rfc_session(rng, hit, b''), zone)[4:]
+
+
 ALPHA_DS = ['a', '.', '%', '{', '}', 'd', 'r', '1', '-', '/']
 
 
@@ -786,6 +855,8 @@ def run(ctx):
         cases += [gen_rfc_case(rng, ctx) for _ in range(nz)]
         cases += [gen_rfc_chain_case(rng, ctx) for _ in range(nz // 2)]
         cases += [gen_rfc_single_case(rng, ctx) for _ in range(nz)]
+        cases += [gen_raw_case(rng, ctx) for _ in range(nz // 3)]
+        cases += [gen_limit_edge_case(rng, ctx) for _ in range(nz // 3)]
         res = vlib.differential(ctx, 'check_host', h, cases, pred=pred, known_class=known_class,
                                 nontrivial=lambda c, o: o.count(',') >= 1,
                                 corr_name='model QsmtpModel.Spf.checkHost vs qsmtpd/spf.c:check_host (+ lib/qdns.c) incl. the DNS query trace')
